@@ -284,7 +284,65 @@ def s5_convert(ctx, ck):
         # (leaving the loop with an error -- `?` -- abandons the whole conversion; only successful conversions matter)
         early = [p for p in il2.break_paths if not _err_exit(p)]
         ok_inner = allp and il2.complete and not early and il2.elem[1][2] == "fwd" and bool(il2.cont_paths)
+        # the table that repeat-only entries are looked up in lists EVERY produced mapping under its key set
+        for p in il2.cont_paths:
+            ok_t, why_t = _from_table_entry(p, il2.elem, res)
+            ck.ob("C13-S5", fn, "every-produced-mapping's-position-is-recorded-under-FromSet(its-from)", ok_t, detail=why_t)
     ck.ob("C13-S5", fn, "every-produced-mapping-is-appended-once,in-order,and-indexed-by-its-position", ok_inner)
+
+
+def _entry_or_empty(recv, is_key):
+    """recv = map.entry(K).or_default() | .or_insert_with(Vec::new) | .or_insert(Vec::new())  with is_key(K)"""
+    recv = mir.strip(recv)
+    if not (isinstance(recv, tuple) and recv[0] == "call" and mir.method_name(recv[1]) in ("or_default", "or_insert_with", "or_insert") and recv[2]):
+        return False
+    en = recv[2][0]
+    if not (isinstance(en, tuple) and en[0] == "call" and mir.method_name(en[1]) == "entry" and len(en[2]) == 2 and is_key(en[2][1])):
+        return False
+    if mir.method_name(recv[1]) == "or_default":
+        return True
+    d = recv[2][1] if len(recv[2]) > 1 else None
+    return (isinstance(d, tuple) and d[0] == "call" and mir.method_name(d[1]) == "new" and not d[2]) or (isinstance(d, tuple) and d[0] == "const" and "Vec" in str(d) and "new" in str(d))
+
+
+def _from_table_entry(p, elem, res):
+    """on one pass of the loop that appends a produced mapping: its index (res.len() before the push) is ADDED to the list
+    kept under FromSet::new(&mapping.from) -- pushed onto the existing list, or a new one-element list inserted"""
+    keys = [e for i, e in _calls(p, name=FLI + "FromSet::new") if mir.strip(e.b[0]) == T("field", elem, "from")]
+    if not keys:
+        return False, "no FromSet::new(&mapping.from) on this pass"
+    key = keys[0].c
+    lenres = T("len", res)
+
+    def is_key(t):
+        t = mir.strip(t)
+        while isinstance(t, tuple) and t and t[0] == "clone":
+            t = mir.strip(t[1])
+        return t == mir.strip(key)
+
+    def is_len(t):
+        t = mir.strip(t)
+        return t == lenres or (isinstance(t, tuple) and t and t[0] == "call" and mir.method_name(t[1]) == "len" and mir.strip(t[2][0]) == res)
+    pushes = [e for i, e in _calls(p, method="push") if mir.strip(e.b[0]) != res]
+    look = [e for i, e in _calls(p, method="get_mut") if "HashMap" in e.a and len(e.b) == 2 and is_key(e.b[1])]
+    if look:
+        got = [e.b for e in p.events if e.kind == "guard" and e.a == T("variantof", look[0].c)]
+        if got and got[0] == "Some":
+            want = T("field", T("variant", look[0].c, "Some"), "0")
+            ok = len(pushes) == 1 and mir.strip(pushes[0].b[0]) == want and is_len(pushes[0].b[1])
+            return ok, None if ok else "key set already known: the position is not pushed onto its list"
+        if got:
+            ins = [e for i, e in _calls(p, method="insert") if "HashMap" in e.a and len(e.b) == 3 and is_key(e.b[1]) and mir.strip(e.b[0]) == mir.strip(look[0].b[0])]
+            # (vec![x] stores the array [x] into a fresh box and turns the box into a Vec)
+            filled = [e for e in p.events if e.kind == "store" and (is_len(e.b) or (isinstance(e.b, tuple) and e.b and e.b[0] == "array" and len(e.b[1]) == 1 and is_len(e.b[1][0])))] \
+                or [e for e in ins if any(is_len(x) for x in mir.subterms(e.b[2]))]
+            ok = len(ins) == 1 and bool(filled)
+            return ok, None if ok else "key set not known yet: no one-element list holding the position is inserted"
+        return False, "the look-up result is not examined"
+    if len(pushes) == 1 and _entry_or_empty(pushes[0].b[0], is_key):
+        ok = is_len(pushes[0].b[1])
+        return ok, None if ok else "entry(..) form: what is pushed onto the list of this key set is not the mapping's position"
+    return False, "the position of the produced mapping is not added to the table on this pass"
 
 
 # ---------------------------------------------------------------------------------------------
@@ -364,6 +422,11 @@ def s7_alias_tables(ctx, ck):
             if inserts:
                 ok = len(inserts) == 1 and not pushes and (mir.strip(inserts[0][1].b[1]) == name or inserts[0][1].b[1] == T("clone", name))
                 ck.ob("C13-S7", fn, "first-definition-of-an-alias-opens-its-list(keyed-by-the-alias-name)", ok and len(g) == 1 and mir.strip(g[0].b[1]) == name)
+            elif not g and len(pushes) == 1 and _entry_or_empty(pushes[0][1].b[0], lambda t: mir.strip(t) == name or t == T("clone", name) or mir.strip(t) == T("clone", name)):
+                # map.entry(name).or_insert_with(Vec::new).push(alias): opens the list if need be and appends, in one step
+                ok = mir.strip(pushes[0][1].b[1]) == alias
+                ck.ob("C13-S7", fn, "first-definition-of-an-alias-opens-its-list(keyed-by-the-alias-name)", ok)
+                ck.ob("C13-S7", fn, "later-definitions-are-appended-in-source-order", ok)
             else:
                 ok = len(pushes) == 1 and mir.strip(pushes[0][1].b[1]) == alias and len(g) == 1 and mir.strip(g[0].b[1]) == name
                 ck.ob("C13-S7", fn, "later-definitions-are-appended-in-source-order", ok)
@@ -831,6 +894,20 @@ def s11_dispatch(ctx, ck):
             continue
         g = [e.b for e in p.events if e.kind == "guard" and isinstance(e.a, tuple) and e.a[0] == "call" and e.a[1] == FLI + "is_just_one_modifier"
              and mir.strip(e.a[2][0]) == T("field", T("field", al, "from"), "keys")]
+        if not g:
+            # the same test written out in place:  keys.len() == 1 && is_modifier(&keys[0])   (also as a slice pattern
+            # `[k] if is_modifier(k)`)
+            keys_ = T("field", T("field", al, "from"), "keys")
+            one = [e.b for e in p.events if e.kind == "guard" and Walker._eq_const(e.a) is not None and mir.strip(Walker._eq_const(e.a)[0]) == T("len", keys_) and Walker._eq_const(e.a)[1] == 1]
+            mod = [e.b for e in p.events if e.kind == "guard" and isinstance(e.a, tuple) and e.a[0] == "call" and e.a[1] == FLI + "is_modifier"
+                   and isinstance(mir.strip(e.a[2][0]), tuple) and mir.strip(e.a[2][0])[0] == "index" and mir.strip(mir.strip(e.a[2][0])[1]) == keys_
+                   and const_int(mir.strip(e.a[2][0])[2]) == 0]
+            if one == [True] and mod == [True]:
+                g = [True]
+            elif one == [False] and not mod:
+                g = [False]
+            elif one == [True] and mod == [False]:
+                g = [False]
         maps = [s_ for e in p.events for t in (e.a, e.b) if isinstance(t, tuple) for s_ in subterms(t)
                 if isinstance(s_, tuple) and len(s_) > 4 and s_[0] == "agg" and s_[1] == "keys::Mapping"]
         if g == [True]:
